@@ -33,7 +33,7 @@ ASN2 = (1, 0, 2 ** 15, 2 ** 16 - 1, 23456)
 ASN4 = ASN2 + (2 ** 16, 2 ** 31, 2 ** 32 - 1)
 IP4_BOUNDS = ('10.0.0.1', '0.0.0.0', '0.0.0.1', '127.255.255.255', '128.0.0.0', '255.255.255.255')
 SEG_LENGTHS = (0, 1, 2, 63, 64, 127, 128, 255)
-LABELS = (0, 1, 3, 15, 16, 2 ** 20 - 1)
+LABELS = (0, 1, 3, 15, 16, 524288, 2 ** 20 - 1)      # 524288: its wire form 0x800000 is also the "no label" filler of withdrawals
 BASE_ATTR = {1: 0, 2: [(2, [64512])], 3: '192.0.2.1'}
 WK_NAMES = tuple(n for _, n in upd.WELL_KNOWN_COMMUNITIES)
 
@@ -283,6 +283,8 @@ def c06_cases(tier='quick'):
         # routes and carries MP_REACH / other attributes in the same message)
         if texts:
             yield fam, tuple(['where=withdraw+attrs'] + cv), {'attr': dict(BASE_ATTR), 'withdraw': texts}, False
+            # the same prefixes withdrawn and announced in one message (RFC 4271 4.3 discourages it, every speaker accepts it)
+            yield fam, tuple(['where=both-same'] + cv), {'attr': dict(BASE_ATTR), 'nlri': texts, 'withdraw': texts}, False
 
     # 1. every single prefix
     for p in pool:
@@ -506,7 +508,7 @@ ESIS_FEW = [ESIS[0]] + [next(e for e in ESIS if e[0] == 't%d' % t) for t in (1, 
 ETAGS = (0, 1, 100, 2 ** 31, 2 ** 32 - 1)
 EVPN_IPS = (('none', None), ('v4', '192.168.0.1'), ('v4', '0.0.0.1'), ('v6', '2001:db8::1'), ('v6', '::1'),
             ('v6', 'ffff:ffff:ffff:ffff:ffff:ffff:ffff:ffff'))
-EVPN_STACKS = [[l] for l in LABELS] + [[a, b] for a in (0, 16, 2 ** 20 - 1) for b in (0, 16, 2 ** 20 - 1)]
+EVPN_STACKS = [[l] for l in LABELS] + [[a, b] for a in (0, 16, 524288, 2 ** 20 - 1) for b in (0, 16, 524288, 2 ** 20 - 1)]
 
 
 def _evpn_route(t, rd, esi, etag, mac, ip, stack, prefix=None, gw=None):
@@ -720,10 +722,15 @@ def element_pools():
         edge = [p for p in prefix_pool(ver, lens) if p.value != 0 or p.plen == 0]
         stacks = ([1], [0], [2 ** 20 - 1], [16, 3], [0, 0])
         out['ipv%d_lu' % ver] = [upd.encode_nlri(afi, 4, [{'prefix': p.text, 'label': s}]) for p in edge for s in stacks]
+        # the same with the three traffic-class bits of every label entry set (RFC 8277: ignored on receipt)
+        out['ipv%d_lu' % ver] += [upd.encode_nlri(afi, 4, [{'prefix': p.text, 'label': s}], opts={'label_tc': tc})
+                                  for p in edge[::3] for s in stacks for tc in (7, 4)]
         out['ipv%d_lu_withdraw' % ver] = [upd.encode_nlri(afi, 4, [{'prefix': p.text}], True) for p in edge]
         rds = (RDS[4], RDS[13], RDS[22])
         out['vpnv%d' % ver] = [upd.encode_nlri(afi, 128, [{'prefix': p.text, 'label': s, 'rd': rd[1]}])
                                for p in edge for s in stacks[::2] + stacks[3:4] for rd in rds][:300]
+        out['vpnv%d' % ver] += [upd.encode_nlri(afi, 128, [{'prefix': p.text, 'label': s, 'rd': rds[0][1]}], opts={'label_tc': 7})
+                                for p in edge[::3] for s in stacks]
         out['vpnv%d_withdraw' % ver] = [upd.encode_nlri(afi, 128, [{'prefix': p.text, 'rd': rd[1]}], True)
                                         for p in edge for rd in rds]
     ev = []
